@@ -168,7 +168,9 @@ def run_session(chk, nat, lines):
     return same, "lines %r: the REPL prints %r / %r, evaluating each text as soon as it is complete prints %r / %r" % (lines, body, err, want_out, want_err)
 
 
-SESSION_PROBES = [["(+ 1", "2)"], ["(+ 1 2)", "(+ 3", "", "4)"], [")", "(+ 1 2)"], ["(a"], ["(\"", ")\"", ")"], ["(define x 5)", "x", "(", "+ x", " 1)"], ["; (", "(+ 1 2) ; )", "#\\(", "\"(\""]]
+SESSION_PROBES = [["1 2 3"], ["(define x 1) x (car x) 5", "x"], ["(define n 0)", "(set! n (+ n 1)) '", "n"], ["(+ 1 ; one", " 2)", "(* 2 3)"], ["(car 5)", "(+ 1 2)"],
+                  ["(+", "", "  7 1)", "(+ 1 1)"],
+                  ["(+ 1", "2)"], ["(+ 1 2)", "(+ 3", "", "4)"], [")", "(+ 1 2)"], ["(a"], ["(\"", ")\"", ")"], ["(define x 5)", "x", "(", "+ x", " 1)"], ["; (", "(+ 1 2) ; )", "#\\(", "\"(\""]]
 
 
 def session_probe(chk, nat):
